@@ -482,7 +482,7 @@ func (o *orc) getOrCreateCase(n int, childDepth int, parentFirst bool) {
 	errs := make([][3]error, n)
 	var wg sync.WaitGroup
 	startGate := make(chan struct{})
-	o.guarded("get_or_create_once", what, 30*time.Second, func() {
+	finished := o.guarded("get_or_create_once", what, 30*time.Second, func() {
 		for g := 0; g < n; g++ {
 			wg.Add(1)
 			go func(g int) {
@@ -503,6 +503,12 @@ func (o *orc) getOrCreateCase(n int, childDepth int, parentFirst bool) {
 		close(startGate)
 		wg.Wait()
 	})
+	if !finished {
+		// some caller never came back (a service left the scope locked): already reported; the results are
+		// incomplete and a further call on this scope would block this goroutine too
+		o.tick("conc:getorcreate")
+		return
+	}
 	names := []string{"tasks.Unit.FromScope", "envs.Unit.Envs", "waits.WaitManager.ForScope"}
 	for j := 0; j < 3; j++ {
 		for g := 0; g < n; g++ {
@@ -519,10 +525,13 @@ func (o *orc) getOrCreateCase(n int, childDepth int, parentFirst bool) {
 		}
 	}
 	// a later caller gets the same one again
-	again, _ := tunit.FromScope(target)
-	if again != res[0][0] {
-		o.fail("get_or_create_once", "tasks.Unit.FromScope %s: a later call returned a different instance", what)
-	}
+	// (under the watchdog as well: a service that left the scope locked on some path blocks this call for ever)
+	o.guarded("get_or_create_once", what+" later call", 30*time.Second, func() {
+		again, _ := tunit.FromScope(target)
+		if again != res[0][0] {
+			o.fail("get_or_create_once", "tasks.Unit.FromScope %s: a later call returned a different instance", what)
+		}
+	})
 	o.tick("conc:getorcreate")
 }
 
